@@ -178,6 +178,116 @@ func TestGovcReplay(t *testing.T) {
 		return c.runReplayTest("pkg/x25", map[string]string{"test.go": test}, "TestGovcReplay")
 	case fn == "(frame.V2Frame).marshalTo" || fn == "(frame.V1Frame).marshalTo" || fn == "(frame.V2Frame).GenerateChecksum" || fn == "(frame.V1Frame).GenerateChecksum":
 		return c.replayFrameFields(ns, v, m, string(oracle))
+	case fn == "(*tlog.Writer).Write":
+		// a fixed family of entry sequences (encodable and unencodable frames, times before and after 1970, a failing
+		// file) written through the real writer; the file must be the concatenation of timestamp+frame of exactly the
+		// accepted entries
+		test := `package tlog
+
+import ("bytes"; "errors"; "fmt"; "testing"; "time"; "github.com/bluenviron/gomavlib/v3/pkg/frame"; "github.com/bluenviron/gomavlib/v3/pkg/message")
+
+type rpFailing struct { buf bytes.Buffer; failAt, calls int }
+func (f *rpFailing) Write(p []byte) (int, error) { f.calls++; if f.calls == f.failAt { return 0, errors.New("disk full") }; return f.buf.Write(p) }
+
+func rpWire(fr frame.Frame) []byte {
+	switch f := fr.(type) {
+	case *frame.V2Frame:
+		m := f.Message.(*message.MessageRaw)
+		out := []byte{0xFD, byte(len(m.Payload)), f.IncompatibilityFlag, f.CompatibilityFlag, f.SequenceNumber, f.SystemID, f.ComponentID, byte(m.ID), byte(m.ID >> 8), byte(m.ID >> 16)}
+		out = append(out, m.Payload...)
+		return append(out, byte(f.Checksum), byte(f.Checksum>>8))
+	case *frame.V1Frame:
+		m := f.Message.(*message.MessageRaw)
+		out := []byte{0xFE, byte(len(m.Payload)), f.SequenceNumber, f.SystemID, f.ComponentID, byte(m.ID)}
+		out = append(out, m.Payload...)
+		return append(out, byte(f.Checksum), byte(f.Checksum>>8))
+	}
+	return nil
+}
+
+func TestGovcReplay(t *testing.T) {
+	good2 := &frame.V2Frame{SequenceNumber: 3, SystemID: 4, ComponentID: 5, Message: &message.MessageRaw{ID: 300, Payload: []byte{1, 2, 3}}, Checksum: 0x1234}
+	good1 := &frame.V1Frame{SequenceNumber: 9, SystemID: 8, ComponentID: 7, Message: &message.MessageRaw{ID: 30, Payload: []byte{5, 0, 6}}, Checksum: 0x4321}
+	bad1 := &frame.V1Frame{Message: &message.MessageRaw{ID: 300, Payload: []byte{1}}}
+	badNil := &frame.V2Frame{}
+	times := []time.Time{time.Unix(1700000000, 123456789), time.Unix(-5, 999), time.Unix(0, 0)}
+	seqs := [][]frame.Frame{{good2}, {good1, good2}, {bad1, good2}, {good1, badNil, good2}, {badNil}, {bad1, bad1, good1}}
+	confirmed := false
+	for si, seq := range seqs {
+		for failAt := 0; failAt <= 4; failAt++ {
+			dst := &rpFailing{failAt: failAt}
+			w := &Writer{ByteWriter: dst}
+			if err := w.Initialize(); err != nil { continue }
+			var want []byte
+			stop := false
+			for k, fr := range seq {
+				ts := times[k%len(times)]
+				encodable := fr != badNil && fr != bad1
+				before := dst.buf.Len()
+				callsBefore := dst.calls
+				err := w.Write(&Entry{Time: ts, Frame: fr})
+				if !encodable {
+					if err == nil || dst.buf.Len() != before || dst.calls != callsBefore {
+						confirmed = true
+						fmt.Printf("REPLAY-CONFIRMED tlog.Writer.Write sequence %d entry %d (unencodable frame): err=%v, file grew by %d bytes, %d writes to the file\n", si, k, err, dst.buf.Len()-before, dst.calls-callsBefore)
+					}
+					continue
+				}
+				us := ts.UnixMicro()
+				e := []byte{byte(us >> 56), byte(us >> 48), byte(us >> 40), byte(us >> 32), byte(us >> 24), byte(us >> 16), byte(us >> 8), byte(us)}
+				e = append(e, rpWire(fr)...)
+				if dst.calls >= failAt && failAt != 0 && dst.calls-callsBefore > 0 && err != nil { stop = true; break }
+				if err != nil { stop = true; break }
+				want = append(want, e...)
+			}
+			if !stop && !bytes.Equal(dst.buf.Bytes(), want) {
+				confirmed = true
+				fmt.Printf("REPLAY-CONFIRMED tlog.Writer.Write sequence %d (failing write #%d): file is %x, the accepted entries are %x\n", si, failAt, dst.buf.Bytes(), want)
+			}
+		}
+	}
+	if !confirmed { fmt.Println("REPLAY-NOT-REPRODUCED") }
+}
+`
+		return c.runReplayTest("pkg/tlog", map[string]string{"test.go": test}, "TestGovcReplay")
+	case fn == "(*streamwriter.Writer).Initialize":
+		// configuration from the model; the expected outcome is the property's sentence, not the contract
+		get := func(suffix string) uint64 { _, x, _ := findKey(m, suffix); return x }
+		keyNil := true
+		if _, isnil, ok := findKey(m, ".Key.isnil!1"); ok {
+			keyNil = isnil != 0
+		}
+		key := "nil"
+		if !keyNil {
+			key = "frame.NewV2Key(make([]byte, 32))"
+		}
+		test := fmt.Sprintf(`package streamwriter
+
+import ("fmt"; "testing"; "github.com/bluenviron/gomavlib/v3/pkg/frame")
+
+func TestGovcReplay(t *testing.T) {
+	confirmed := false
+	try := func(ver Version, sys, comp byte, key *frame.V2Key) {
+		w := &Writer{Version: ver, SystemID: sys, ComponentID: comp, Key: key}
+		err := w.Initialize()
+		refuse := ver == 0 || sys < 1 || (key != nil && ver != V2)
+		if (err != nil) != refuse {
+			confirmed = true
+			fmt.Printf("REPLAY-CONFIRMED streamwriter.Initialize(Version=%%d SystemID=%%d ComponentID=%%d Key set=%%v): err=%%v, must be refused=%%v\n", ver, sys, comp, key != nil, err, refuse)
+		} else if err == nil && ((comp < 1 && w.ComponentID != 1) || (comp >= 1 && w.ComponentID != comp)) {
+			confirmed = true
+			fmt.Printf("REPLAY-CONFIRMED streamwriter.Initialize(ComponentID=%%d) leaves component id %%d\n", comp, w.ComponentID)
+		}
+	}
+	try(Version(%d), %d, %d, %s)
+	// neighbours of the model (the solver's model is one point of the failing region)
+	for _, ver := range []Version{0, V1, V2} { for _, sys := range []byte{0, 1, 255} { for _, comp := range []byte{0, 1, 7} {
+		try(ver, sys, comp, nil); try(ver, sys, comp, frame.NewV2Key(make([]byte, 32)))
+	} } }
+	if !confirmed { fmt.Println("REPLAY-NOT-REPRODUCED") }
+}
+`, int64(get(".Version!1")), get(".SystemID!1")&0xFF, get(".ComponentID!1")&0xFF, key)
+		return c.runReplayTest("pkg/streamwriter", map[string]string{"test.go": test}, "TestGovcReplay")
 	case strings.HasPrefix(fn, "(*message.ReadWriter).Initialize"):
 		// the counterexample is a struct TYPE (reflect model), which cannot be built from a solver model at run time:
 		// search the bounded corpus instead (408 shipped structs + malformed / boundary structs against the
